@@ -368,7 +368,7 @@ def run(ctx):
         par = (alpha_t, sp.Symbol("K"), sp.Symbol("L"), sp.Symbol("M")) if method != "MNDO" else (alpha_t,)
         # energy: rij is in bohr, rija = rij*a0 in Angstrom; take r := rija as the variable
         envE = {"rij": r / a0s, "a0": a0s, "gam": gam, "parameters": par, "const.tore": sp.Symbol("tore"), "const.atomic_num": sp.Symbol("an")}
-        se = SymExec(envE, {"XH": xh}, {"method": method}, dict(idx, **{"parameters[0]": sp.Symbol("alpha")}), funcs)
+        se = SymExec(envE, {"XH": xh}, {**__import__("sa.symexec", fromlist=["literal_globals"]).literal_globals(repo.mod("seqm/seqm_functions/energy.py")), "method": method}, dict(idx, **{"parameters[0]": sp.Symbol("alpha")}), funcs)
         se.env["alpha"] = sp.Symbol("alpha")
         try:
             E = se.run([s for s in pne.body])
@@ -378,7 +378,7 @@ def run(ctx):
             raise AnalysisError(f"pair_nuclear_energy returned {E} for {method}")
         envD = {"mol.rij": r / a0s, "rij": r / a0s, "a0": a0s, "gam": gam, "parameters": par, "mol.xij": X / r, "xij": X / r, "const.tore": sp.Symbol("tore"),
                 "w_x": sp.Symbol("w_x")}
-        sd = SymExec(envD, {"XH": xh}, {"method": method}, dict(idx, **{"parameters[0]": sp.Symbol("alpha"), "w_x[:, :, 0, 0]": dG}), funcs)
+        sd = SymExec(envD, {"XH": xh}, {**__import__("sa.symexec", fromlist=["literal_globals"]).literal_globals(repo.mod("seqm/seqm_functions/anal_grad.py"), repo.mod("seqm/seqm_functions/energy.py")), "method": method}, dict(idx, **{"parameters[0]": sp.Symbol("alpha"), "w_x[:, :, 0, 0]": dG}), funcs)
         first_if = next((s_ for s_ in ccd.body if isinstance(s_, ast.If) and any(callee_attr(c_) == "core_core_der_fd" for c_ in calls_in(s_))), None)
         body = [s for s in ccd.body if s is not first_if]
         # local aliases (ni = mol.ni ...) are bookkeeping; pre-bind the ones that matter
